@@ -98,6 +98,13 @@ func genC16(rng *rand.Rand, n int, emit func(Case), dist map[string]int) {
 		{"StaticFS recording fs.FS", mk(func(e *echo.Echo) { e.StaticFS("/fs", c16FS{os.DirFS(root), &opened}) }), "/fs", 2},
 		{"File route", mk(func(e *echo.Echo) { e.File("/one", filepath.Join(root, "file.txt")) }), "/one", 0},
 	}
+	// roots "." and "" name the directory the instance was created in (echo.New captures it)
+	os.Chdir(root)
+	cfgs = append(cfgs,
+		cfgT{"Echo.Static / root=. (instance created inside the root)", mk(func(e *echo.Echo) { e.Static("/", ".") }), "", 0},
+		cfgT{"Group.Static /dot/files root=\"\"", mk(func(e *echo.Echo) { e.Group("/dot").Static("/files", "") }), "/dot/files", 0},
+		cfgT{"Echo.Static /cur root=./", mk(func(e *echo.Echo) { e.Static("/cur", "./") }), "/cur", 0})
+	os.Chdir(base)
 	segsA := []string{"..", ".", "%2e%2e", "%2e", "%2f", "%5c", "\\", "", "sub", "deep", "file.txt", "index.html", "secret.txt", "other", "rootx",
 		"%252e%252e", "..%2f", "%2e%2e%2f", "%2E%2E", "..%5c", "assets", "a.css", "f.txt", "x.txt", "secret2.txt", "secret3.txt", "root", "%00", "..;"}
 	for it := 0; it < n; it++ {
